@@ -1,6 +1,7 @@
 //! unit: u15b
 //! properties: C15
 //! note: read-buffer framing of PeerManager::do_read_event after the handshake: the buffer is sized for the announced body plus its 16-byte tag for every u16 length, and reset to the 18-byte header afterwards
+//! trusted: R15 (deep slices): do_handle_message_holding_peer_lock: the test that refuses a non-Init message while no Init has been accepted and the test that refuses a second Init, verbatim as functions of the peer (skeleton {their_features}); the feature / chain compatibility tests and the handlers' peer_connected notifications are not sliced (handlers are reached through shared references to objects with interior state)
 //! trusted: R15 (statement slicing, deep form): do_read_event is ~600 lines under three locks with function-local macros; the unit extracts, on every run, (a) the statements between `let msg_len = ..decrypt_length_header..` and `peer.pending_read_is_header = false;` and (b) the "Reset read buffer" statements of the body branch, verbatim, as two functions of the two Peer fields they touch; everything else of do_read_event is dropped and not claimed
 //! trusted: env: Peer skeleton {pending_read_buffer, pending_read_is_header}; PeerHandleError empty struct (as in the source)
 //! trusted: assume_specification for Vec::capacity (some value >= len; std definition)
@@ -171,6 +172,31 @@ pub struct ReadPeer { pub pending_read_buffer: Vec<u8>, pub pending_read_buffer_
     read_pos += data_to_copy;
 //@with
     read_pos += 0;
+//@end
+// ---- Init before anything else, and only once (do_handle_message_holding_peer_lock) -------------------------------------------
+pub struct InitFeatures {}
+pub struct GatePeer { pub their_features: Option<InitFeatures> }
+//@extract lightning/src/ln/peer_handler.rs :: impl PeerManager :: fn do_handle_message_holding_peer_lock
+//@slice R15
+    peer_lock.their_features = Some(msg.features); return Ok(None); } else if $c:cond { return Err(PeerHandleError {}.into()); }
+//@with
+    fn message_before_init_is_refused(peer_lock: &GatePeer) -> bool { $c }
+//@ret r
+//@ensures P C15 any-message-other-than-init-is-refused-until-the-peers-init-has-been-accepted
+    r == (peer_lock.their_features is None),
+//@mutant messages_accepted_before_init
+    } else if peer_lock.their_features.is_none() {
+//@with
+    } else if peer_lock.their_features.is_some() {
+//@end
+//@extract lightning/src/ln/peer_handler.rs :: impl PeerManager :: fn do_handle_message_holding_peer_lock
+//@slice R15
+    if $c:cond { return Err(PeerHandleError {}.into()); } if msg.features.initial_routing_sync() && !msg.features.supports_gossip_queries() {
+//@with
+    fn second_init_is_refused(peer_lock: &GatePeer) -> bool { $c }
+//@ret r
+//@ensures P C15 an-init-from-a-peer-whose-init-was-already-accepted-is-refused
+    r == (peer_lock.their_features is Some),
 //@end
 }
 fn main() {}
